@@ -623,7 +623,7 @@ func c22Search(c *Ctx, cs c22Case, asg bool) (bool, string) {
 	if in.TimedOut { // machine load: once more, then give the case up rather than blame the implementation
 		in = runInterp(c, syntax.LangBash, script)
 		if in.TimedOut {
-			return false, "oracle-unavailable"
+			return false, "interp-timeout"
 		}
 	}
 	if in.Panic != "" {
@@ -1000,8 +1000,10 @@ func c22(c *Ctx) {
 		return shRes{f, w}
 	})
 	for i, sc := range shCases {
-		if results[i].what == "oracle-unavailable" {
-			c.Case("sh\x00"+sc.witness, false, "oracle-unavailable")
+		if results[i].what == "oracle-unavailable" || results[i].what == "interp-timeout" {
+			// visible in the evidence histogram; a real hang of `read`/expansion would show up as a
+			// large `interp-timeout` count on an idle machine
+			c.Case("sh\x00"+sc.witness, false, results[i].what)
 			continue
 		}
 		c.Case("sh\x00"+sc.witness, true, "bash-compared")
